@@ -318,7 +318,7 @@ class ScnGen:
                     steps_open = ["open", ci, pre, False]
                     skip = pre
             else:
-                steps_open = ["open", ci]
+                steps_open = ["open", ci, "fail"] if (ci == 1 and rng.random() < 0.03) else ["open", ci]
             evq[ci] = (steps_open, q)
             if skip is None:
                 continue
@@ -498,7 +498,7 @@ def _run_steps(M, scn, ctx, run, split_rng):
             c = scn["conns"][ci]
             opened.add(ci)
             if c["role"] == "in":
-                ctx.accept(ci, True)
+                ctx.accept(ci, not (len(st) > 2 and st[2] == "fail"))
             else:
                 pre = streams[ci][:st[2]]
                 pos[ci] = st[2]
@@ -671,6 +671,8 @@ def oracle(scn, run: Run):
         if op == "open":
             c.opened = True
             c.alias = aliases[ci]
+            if c.role == "in" and len(st) > 2 and st[2] == "fail":
+                c.dead = "accept-failed"          # the server handshake could not be sent
             if c.role == "out":
                 c.rx += streams[ci][:st[2]]
                 pos[ci] = st[2]
